@@ -67,7 +67,29 @@ Definition unknown_key_raises : bool :=
 (* the result object exposes every exit-code constant named in the user guide *)
 Definition exposes (nm : string) : bool :=
   existsb (fun a => streq (a_func a) "OptimResults.__init__" && streq (a_target a) ("self." ++ nm) && streq (a_value a) nm) T_assigns.
-Theorem C07_input_errors_are_reported_not_raised : input_exits_ok = true /\ graceful_return_ok = true /\ unknown_key_raises = true.
+(* every entry of user_params reaches ParameterList.__call__ (which raises for unknown names): the write in solve()'s loop over
+   user_params.items() is unconditional *)
+Definition every_user_entry_is_looked_up : bool :=
+  existsb (fun c => streq (c_func c) "solve" && slist_eq (c_args c) ["key"; "new_value=val"] &&
+                    match c_guards c with
+                    | [(true, "user_params is not None"); (true, g)] => prefix "for " g
+                    | _ => false end) (calls_of T_calls "params").
+(* ParameterList.__call__ raises ValueError on a second write of the same key, so the solver's own parameter writes must never
+   hit a key the user wrote: each is guarded by "the user has not set it" in one of the three forms below *)
+Definition user_did_not_set (key : string) (gs : list (bool * string)) : bool :=
+  has_guard gs true ("not params.params_changed[" ++ key ++ "]") ||
+  (mem key ["'growing.full_rank.use_full_rank_interp'"; "'growing.perturb_trust_region_step'"] &&
+   has_guard gs true "default_growing_method_set_by_user is not None and (not default_growing_method_set_by_user)" &&
+   existsb (fun a => streq (a_func a) "solve" && streq (a_target a) "default_growing_method_set_by_user" &&
+                     streq (a_value a) "user_params is not None and ('growing.full_rank.use_full_rank_interp' in user_params or 'growing.perturb_trust_region_step' in user_params)")
+           T_assigns) ||
+  has_guard gs true ("params(" ++ key ++ ") is None").
+Definition own_writes_respect_the_users : bool :=
+  forallb (fun c => slist_eq (c_args c) ["key"; "new_value=val"] ||
+                    match c_args c with [k; _] => user_did_not_set k (c_guards c) | _ => false end) (calls_of T_calls "params").
+Theorem C07_own_parameter_writes_never_collide_with_the_users : own_writes_respect_the_users = true.
+Proof. vm_compute. reflexivity. Qed.
+Theorem C07_input_errors_are_reported_not_raised : input_exits_ok = true /\ graceful_return_ok = true /\ unknown_key_raises = true /\ every_user_entry_is_looked_up = true.
 Proof. vm_compute. repeat split; reflexivity. Qed.
 Theorem C07_result_exposes_documented_exit_codes : forallb exposes T_doc_exit_names = true /\ Z.leb 9 (Z.of_nat (List.length T_doc_exit_names)) = true.
 Proof. vm_compute. split; reflexivity. Qed.
@@ -75,4 +97,5 @@ Proof. vm_compute. split; reflexivity. Qed.
 Print Assumptions C07_validation_is_total.
 Print Assumptions C07_accepted_values_are_typed_and_in_range.
 Print Assumptions C07_input_errors_are_reported_not_raised.
+Print Assumptions C07_own_parameter_writes_never_collide_with_the_users.
 Print Assumptions C07_result_exposes_documented_exit_codes.
